@@ -40,6 +40,9 @@
 //! A message carries kind (selects the rule), ttl (header id; emissions need ttl > 0 and emit ttl-1) and
 //! a serial number (content) that counts the emissions of the run.
 //!
+//! Header: cq=<n>:<ns> bopts=<letters>: how the Builder is configured after `seeded(seed)` (see `BuildCfg`); such a
+//! case is executed a fifth time (`g`) with the plain builder / default calendar-queue geometry.  nomodel=1: the case
+//! uses `spawnl:<task>` (tokio::task::spawn_local; logged as `L.<tag>`), the driver only compares the executions.
 //! Header: seed=<u64> noise=<seed of the noise simulation> child=0|1 clock=0|1 burn=<n> (advance the
 //! process-global module-id counter by n before the first execution).
 //! Transcript: header extended with `tq=front|skip` (measured behaviour of `TimerQueue::next`, a model
@@ -72,6 +75,7 @@ enum Step {
     Spin(u64, u64),
     Sched(u64, u16),
     Spawn(String),
+    SpawnL(String),
     Sleep(u64),
     Sel(Vec<u64>),
     Shut,
@@ -122,6 +126,7 @@ fn parse_step(t: &str) -> Option<Step> {
         ["wait", n] => Some(Step::Wait(n.to_string())),
         ["sched", d, k] => Some(Step::Sched(d.parse().ok()?, k.parse().ok()?)),
         ["spawn", t] => Some(Step::Spawn(t.to_string())),
+        ["spawnl", t] => Some(Step::SpawnL(t.to_string())),
         ["sleep", d] => Some(Step::Sleep(d.parse().ok()?)),
         ["shut"] => Some(Step::Shut),
         ["restart", d] => Some(Step::Restart(d.parse().ok()?)),
@@ -418,7 +423,7 @@ fn step_sync(net: &Net, path: &str, st: &Step, ttl: u16, who: &str) {
                 current().shutdow_and_restart_in(Duration::from_nanos(*d));
             }
         }
-        Step::Spawn(_) | Step::Sleep(_) | Step::Sel(_) => {}
+        Step::Spawn(_) | Step::SpawnL(_) | Step::Sleep(_) | Step::Sel(_) => {}
     }
 }
 
@@ -493,8 +498,10 @@ fn do_select(tag: &str, ds: &[u64]) -> MarkPoll {
     MarkPoll { tag: tag.to_string(), inner, polled }
 }
 
-fn spawn_task(net: Arc<Net>, path: String, tag: String, steps: Vec<Step>, ttl: u16) {
-    tokio::spawn(async move {
+fn spawn_task(net: Arc<Net>, path: String, tag: String, steps: Vec<Step>, ttl: u16, local: bool) {
+    // a task on the module's LocalSet is logged as `L.<tag>` (such tasks are outside the Lean model: `nomodel=1`)
+    let tag = if local { format!("L.{tag}") } else { tag };
+    let fut = async move {
         let mut guard = DropGuard { path: path.clone(), tag: tag.clone(), done: false };
         for st in &steps {
             match st {
@@ -526,7 +533,12 @@ fn spawn_task(net: Arc<Net>, path: String, tag: String, steps: Vec<Step>, ttl: u
             }
         }
         guard.done = true;
-    });
+    };
+    if local {
+        tokio::task::spawn_local(fut);
+    } else {
+        tokio::spawn(fut);
+    }
 }
 
 struct Node {
@@ -545,7 +557,12 @@ impl Node {
             match st {
                 Step::Spawn(tag) => {
                     if let Some(t) = self.net.tasks.iter().find(|t| t.0 == *tag) {
-                        spawn_task(self.net.clone(), path.clone(), tag.clone(), t.1.clone(), ttl);
+                        spawn_task(self.net.clone(), path.clone(), tag.clone(), t.1.clone(), ttl, false);
+                    }
+                }
+                Step::SpawnL(tag) => {
+                    if let Some(t) = self.net.tasks.iter().find(|t| t.0 == *tag) {
+                        spawn_task(self.net.clone(), path.clone(), tag.clone(), t.1.clone(), ttl, true);
                     }
                 }
                 s => step_sync(&self.net, &path, s, ttl, "H"),
@@ -649,7 +666,54 @@ struct RunOut {
 
 static BUILT_AT: Mutex<u128> = Mutex::new(0);
 
-fn simulate(net: &Arc<Net>, seed: u64) -> RunOut {
+/// how the `Builder` is configured: header `bopts=<letters>` = the options in call order (q quiet, i max_itr(huge),
+/// t max_time(huge), s start_time(0), c cqueue_options(n, t) with `cq=<n>:<ns>`); default: just `quiet`
+#[derive(Clone)]
+struct BuildCfg {
+    order: Vec<char>,
+    cq: Option<(usize, u64)>,
+}
+
+impl BuildCfg {
+    fn plain() -> Self {
+        BuildCfg { order: vec!['q'], cq: None }
+    }
+    fn of(header: &str) -> Self {
+        let cq = hval(header, "cq").and_then(|v| {
+            let p: Vec<&str> = v.split(':').collect();
+            match p.as_slice() {
+                [n, t] => Some((n.parse::<usize>().ok()?, t.parse::<u64>().ok()?)),
+                _ => None,
+            }
+        });
+        let mut order: Vec<char> = hval(header, "bopts").map(|v| v.chars().filter(|c| "qitsc".contains(*c)).collect()).unwrap_or_default();
+        if !order.contains(&'q') {
+            order.push('q');
+        }
+        if cq.is_some() && !order.contains(&'c') {
+            order.push('c');
+        }
+        BuildCfg { order, cq }
+    }
+    fn apply(&self, mut b: Builder) -> Builder {
+        for c in &self.order {
+            b = match c {
+                'q' => b.quiet(),
+                'i' => b.max_itr(usize::MAX / 2),
+                't' => b.max_time(SimTime::from_duration(Duration::from_secs(1 << 40))),
+                's' => b.start_time(SimTime::ZERO),
+                'c' => match self.cq {
+                    Some((n, t)) => b.cqueue_options(n, Duration::from_nanos(t)),
+                    None => b,
+                },
+                _ => b,
+            };
+        }
+        b
+    }
+}
+
+fn simulate(net: &Arc<Net>, seed: u64, cfg: &BuildCfg) -> RunOut {
     {
         let mut s = sh();
         s.log.clear();
@@ -660,6 +724,7 @@ fn simulate(net: &Arc<Net>, seed: u64) -> RunOut {
         s.sems.clear();
     }
     let net2 = net.clone();
+    let cfg2 = cfg.clone();
     let r = guarded(move || {
         let net = net2;
         let mut sim = Sim::new(());
@@ -702,7 +767,7 @@ fn simulate(net: &Arc<Net>, seed: u64) -> RunOut {
             }
         }
         *BUILT_AT.lock().unwrap_or_else(|e| e.into_inner()) = SimTime::now().as_nanos();
-        let rt = Builder::seeded(seed).quiet().build(sim.freeze());
+        let rt = cfg2.apply(Builder::seeded(seed)).build(sim.freeze());
         match rt.run() {
             Ok((app, t, prof)) => {
                 let s = format!("ok time={} events={} left={}", t.as_nanos(), prof.event_count, prof.remaining.len());
@@ -733,7 +798,7 @@ fn simulate(net: &Arc<Net>, seed: u64) -> RunOut {
 fn probe_tq() -> &'static str {
     let body: Vec<String> = ["mod p ttl=0", "rule p start spawn:t", "task t sel:1,5 sleep:10"].iter().map(|s| s.to_string()).collect();
     let net = Arc::new(parse(&body));
-    let out = simulate(&net, 1);
+    let out = simulate(&net, 1, &BuildCfg::plain());
     if out.res.contains("time=11 ") {
         "skip"
     } else {
@@ -783,7 +848,7 @@ pub fn exec(input: &str) -> String {
             let net = Arc::new(parse(body));
             let seed: u64 = hval(header, "seed").and_then(|v| v.parse().ok()).unwrap_or(1);
             burn_module_ids(header);
-            let r = simulate(&net, seed);
+            let r = simulate(&net, seed, &BuildCfg::of(header));
             writeln!(out, "{header}").unwrap();
             let clock = hval(header, "clock").map(|v| v == "1").unwrap_or(false);
             emit_run(&mut out, "c", &r, clock);
@@ -822,23 +887,27 @@ pub fn exec(input: &str) -> String {
         }
     }
     let tq = probe_tq();
-    let mut mine: Vec<(RunOut, RunOut, RunOut)> = Vec::new();
+    let mut mine: Vec<(RunOut, RunOut, RunOut, Option<RunOut>)> = Vec::new();
     for (header, body) in &cs {
         let net = Arc::new(parse(body));
         let seed: u64 = hval(header, "seed").and_then(|v| v.parse().ok()).unwrap_or(1);
         let noise: u64 = hval(header, "noise").and_then(|v| v.parse().ok()).unwrap_or(7);
         burn_module_ids(header);
-        let a1 = simulate(&net, seed);
-        let a2 = simulate(&net, seed);
+        let cfg = BuildCfg::of(header);
+        let a1 = simulate(&net, seed, &cfg);
+        let a2 = simulate(&net, seed, &cfg);
         // an unrelated simulation: other size, other seed, other end time
         let mut nr = Rng::new(noise);
         let mut ntext = String::new();
-        gen_case(&mut nr, &mut ntext, true);
+        gen_case(&mut nr, &mut ntext, true, false);
         let nbody: Vec<String> = ntext.lines().map(|l| l.to_string()).collect();
         let nnet = Arc::new(parse(&nbody));
-        let _ = simulate(&nnet, noise ^ 0x5555);
-        let b = simulate(&net, seed);
-        mine.push((a1, a2, b));
+        let _ = simulate(&nnet, noise ^ 0x5555, &BuildCfg::plain());
+        let b = simulate(&net, seed, &cfg);
+        // a case with a calendar-queue geometry is executed a fifth time under the default geometry and the plain
+        // builder: the trace must not depend on the geometry (nor on the other, non-binding, builder options)
+        let g = if cfg.cq.is_some() { Some(simulate(&net, seed, &BuildCfg::plain())) } else { None };
+        mine.push((a1, a2, b, g));
     }
     // child results, in the order in which the cases were fed
     let mut child_runs: Vec<Vec<String>> = Vec::new();
@@ -862,7 +931,7 @@ pub fn exec(input: &str) -> String {
         }
     }
     let mut ci = 0usize;
-    for (((header, body), w), (a1, a2, b)) in cs.iter().zip(&wants_child).zip(&mine) {
+    for (((header, body), w), (a1, a2, b, g)) in cs.iter().zip(&wants_child).zip(&mine) {
         writeln!(out, "{header} tq={tq}").unwrap();
         for l in body {
             writeln!(out, "{l}").unwrap();
@@ -879,6 +948,9 @@ pub fn exec(input: &str) -> String {
         emit_run(&mut out, "a1", a1, clock);
         emit_run(&mut out, "a2", a2, clock);
         emit_run(&mut out, "b", b, clock);
+        if let Some(g) = g {
+            emit_run(&mut out, "g", g, clock);
+        }
         if *w {
             match child_runs.get(ci) {
                 Some(lines) if child_ok => {
@@ -897,11 +969,14 @@ pub fn exec(input: &str) -> String {
 
 // ------------------------------------------------------------------------------------------ generator
 
+/// calendar-queue geometries (number of buckets, bucket width in ns)
+const GEOMETRIES: [(usize, u64); 8] =
+    [(1, 1), (2, 3), (4, 1), (3, 5), (7, 1_000), (32, 2_500_000), (1028, 1_000_000_000), (16, 7)];
 const DELAYS: [u64; 8] = [0, 1, 1, 2, 2, 3, 5, 1000];
 const LATS: [u64; 8] = [0, 1, 2, 2, 3, 5, 10, 1000];
 const JITS: [u64; 8] = [0, 0, 1, 2, 4, 7, 50, 1000];
 
-fn gen_steps(r: &mut Rng, out: &mut String, in_task: bool, peers: &[String], kinds: u64, tasks: &[String], draws_only: bool, may_shut: bool) {
+fn gen_steps(r: &mut Rng, out: &mut String, in_task: bool, peers: &[String], kinds: u64, tasks: &[String], draws_only: bool, may_shut: bool, local: bool) {
     let n = r.range(1, 4);
     let mut emitting = 0;
     for _ in 0..n {
@@ -939,7 +1014,9 @@ fn gen_steps(r: &mut Rng, out: &mut String, in_task: bool, peers: &[String], kin
             8 | 9 | 10 if !in_task => {
                 if emitting < 2 && !tasks.is_empty() {
                     emitting += 1;
-                    write!(out, " spawn:{}", r.pick(tasks)).unwrap();
+                    // `nomodel` cases: half of the tasks go onto the module's LocalSet
+                    let how = if local && r.chance(1, 2) { "spawnl" } else { "spawn" };
+                    write!(out, " {how}:{}", r.pick(tasks)).unwrap();
                 }
             }
             8 | 9 => {
@@ -966,7 +1043,7 @@ fn gen_steps(r: &mut Rng, out: &mut String, in_task: bool, peers: &[String], kin
 const RATES: [u64; 6] = [576_000_000_000, 288_000_000_000, 192_000_000_000, 115_200_000_000, 57_600_000_000, 576_000_000];
 
 /// one generated network (the lines between `case` and `end`)
-fn gen_case(r: &mut Rng, out: &mut String, noise: bool) {
+fn gen_case(r: &mut Rng, out: &mut String, noise: bool, local: bool) {
     // one case in six is built from an NDL description: a base type with 3-8 submodules, the entry type inherits
     // it and adds 1-3 submodules of its own; every module draws at start and schedules by the draw, so the order in
     // which NDL elaboration lists the submodules (= creation = start order) decides who draws what
@@ -1052,21 +1129,25 @@ fn gen_case(r: &mut Rng, out: &mut String, noise: bool) {
     for (i, p) in paths.iter().enumerate() {
         let rs = restartable[i];
         let tl: &[String] = if rs { &rtasks } else { &tasks };
-        if rs || ndl || r.chance(4, 5) {
+        if rs || ndl || (local && i == 0) || r.chance(4, 5) {
             write!(out, "rule {p} start").unwrap();
             if rs {
                 write!(out, " spawn:s0").unwrap();
             }
+            if local && i == 0 {
+                // a LocalSet task whose select! the seeded start index decides
+                write!(out, " spawnl:ls spawnl:ls").unwrap();
+            }
             if ndl || r.chance(1, 8) {
                 write!(out, " schedr:{}", r.range(1, kinds)).unwrap();
             }
-            gen_steps(r, out, false, &peers[i], kinds, tl, false, rs);
+            gen_steps(r, out, false, &peers[i], kinds, tl, false, rs, local);
             writeln!(out).unwrap();
         }
         for k in 1..=kinds {
             if r.chance(3, 4) {
                 write!(out, "rule {p} msg:{k}").unwrap();
-                gen_steps(r, out, false, &peers[i], kinds, tl, false, rs);
+                gen_steps(r, out, false, &peers[i], kinds, tl, false, rs, local);
                 writeln!(out).unwrap();
             }
         }
@@ -1076,7 +1157,7 @@ fn gen_case(r: &mut Rng, out: &mut String, noise: bool) {
         if noise || r.chance(1, 3) {
             write!(out, "rule {p} end").unwrap();
             let draws_only = !noise && r.chance(1, 2);
-            gen_steps(r, out, false, &peers[i], kinds, tl, draws_only, false);
+            gen_steps(r, out, false, &peers[i], kinds, tl, draws_only, false, local);
             if noise {
                 write!(out, " sched:{}:1", r.pick(&DELAYS)).unwrap();
                 if let Some(d) = peers[i].first() {
@@ -1086,6 +1167,10 @@ fn gen_case(r: &mut Rng, out: &mut String, noise: bool) {
             }
             writeln!(out).unwrap();
         }
+    }
+    if local {
+        let d = *r.pick(&DELAYS);
+        writeln!(out, "task ls sel:{d},{d} draw sel:{d},{d},{d} draw").unwrap();
     }
     let all: Vec<String> = paths.clone();
     for t in &rtasks {
@@ -1104,9 +1189,9 @@ fn gen_case(r: &mut Rng, out: &mut String, noise: bool) {
         }
         // a task runs on whichever module spawns it: it may name any peer (unknown links are skipped)
         let q = t.starts_with('q');
-        gen_steps(r, out, true, &all, kinds, &tasks, false, q);
+        gen_steps(r, out, true, &all, kinds, &tasks, false, q, local);
         if r.chance(1, 2) {
-            gen_steps(r, out, true, &all, kinds, &tasks, false, q);
+            gen_steps(r, out, true, &all, kinds, &tasks, false, q, local);
         }
         writeln!(out).unwrap();
     }
@@ -1119,8 +1204,28 @@ pub fn gen(seed: u64, count: usize, _thorough: bool) -> String {
         let s = r.next() >> r.below(60);
         // one case in 16 also records the clock as seen while the network is built
         let clock = if r.chance(1, 16) { " clock=1" } else { "" };
-        writeln!(out, "case {k} seed={s} noise={} child=1{clock}", r.range(1, 1 << 20)).unwrap();
-        gen_case(&mut r, &mut out, false);
+        // one case in three configures the builder: a calendar-queue geometry and non-binding limits / start time,
+        // in a random call order (the trace must not depend on any of it: a fifth execution `g` uses the plain builder)
+        let mut cfg = String::new();
+        if r.chance(1, 3) {
+            let (n, t) = *r.pick(&GEOMETRIES);
+            let mut opts: Vec<char> = vec!['q', 'c'];
+            for o in ['i', 't', 's'] {
+                if r.chance(1, 2) {
+                    opts.push(o);
+                }
+            }
+            for i in (1..opts.len()).rev() {
+                let j = r.below(i as u64 + 1) as usize;
+                opts.swap(i, j);
+            }
+            cfg = format!(" cq={n}:{t} bopts={}", opts.iter().collect::<String>());
+        }
+        // one case in eight also uses spawn_local tasks: executions-only comparison, no model replay
+        let local = r.chance(1, 8);
+        let nm = if local { " nomodel=1" } else { "" };
+        writeln!(out, "case {k} seed={s} noise={} child=1{clock}{cfg}{nm}", r.range(1, 1 << 20)).unwrap();
+        gen_case(&mut r, &mut out, false, local);
         writeln!(out, "end").unwrap();
     }
     out
